@@ -7,7 +7,6 @@ impl DepManager {
     pub uninterp spec fn fin(&self) -> Set<AbsPath>;
     /// representation invariant
     pub uninterp spec fn wf(&self) -> bool;
-    pub uninterp spec fn all_deps_are(&self, a: AbsPath, f: AbsPath) -> bool;
     pub uninterp spec fn no_edges(&self) -> bool;
 }
 
